@@ -60,7 +60,9 @@ def canon_run(o):
             "trace": sorted(json.dumps({k: t[k] for k in ("path", "tgt", "inputs", "calls")}, sort_keys=True) for t in o["trace"]),
             "calls": sorted(json.dumps([c["method"], c["name"], c["path"]]) for c in o["calls"]),
             "nested_results": {k: result_view(v) for k, v in o["nested_results"].items()},
-            "objects_after": o["objects_after"]}
+            "objects_after": o["objects_after"],
+            # prose is never judged, only required to be the SAME for the same workflow and the same API answers
+            "messages": o.get("messages", {})}
 
 
 def diff_fields(a, b):
@@ -180,6 +182,13 @@ def run_scenario(ctx: Ctx, sc, cases, terms):
         if d:
             fail("result depends on completion order: " + ", ".join(sorted(set(d))),
                  f"fields {d} differ between the no-latency run and the run with latencies {plan}", plan, o)
+        # (1b) a step's task never finishes before the tasks of the steps it references have finished
+        pos = {e[1]: i for i, e in enumerate(o["events"]) if e[0] == "step"}
+        for st in sc["steps"]:
+            for r in m.step_refs(st):
+                if st["label"] in pos and r in pos and pos[st["label"]] < pos[r]:
+                    fail("a step finished before a step it references",
+                         f"{st['label']} finished before {r}: completion order {o['events']}", plan, o)
         # (2) forEach: source order, own item  (+ every clause of C01 under this schedule)
         for w in foreach_order(sc, o):
             fail("forEach result not in source order / wrong item", w, plan, o)
